@@ -230,7 +230,15 @@ class SimpleLoop(Loop[World]):
                 self._current_world.process(dt)
 
             except SwitchWorld as ex:
-                self.switch(ex.world_handle, ex.clear_current, ex.clear_next)
+                # Callbacks released while entering the new world (e.g.
+                # on_switch_in) may in turn ask to switch
+                while ex is not None:
+                    try:
+                        self.switch(ex.world_handle, ex.clear_current,
+                                    ex.clear_next)
+                        ex = None
+                    except SwitchWorld as nested:
+                        ex = nested
 
     def switch(self, world_handle: Handle[World], clear_current=False,
                clear_next=False):
